@@ -41,12 +41,42 @@ def pubTypeOf (priv : String) : String :=
   else if priv = "ed25519.PrivateKey" then "ed25519.PublicKey"
   else "?"
 
+/-- The stdlib verifier that belongs to a stdlib signer / the decryption that belongs to an encryption. -/
+def verifyCallOf (s : String) : String :=
+  if s = "rsa.SignPKCS1v15" then "rsa.VerifyPKCS1v15"
+  else if s = "rsa.SignPSS" then "rsa.VerifyPSS"
+  else if s = "ecdsa.SignASN1" then "ecdsa.VerifyASN1"
+  else if s = "ed25519.Sign" then "ed25519.Verify"
+  else "?"
+
+def decCallOf (s : String) : String :=
+  if s = "rsa.EncryptPKCS1v15" then "rsa.DecryptPKCS1v15"
+  else if s = "rsa.EncryptOAEP" then "rsa.DecryptOAEP"
+  else "?"
+
+/-- Two dispatch results denote the same primitive: the second helper's stdlib call is the counterpart
+of the first's, with the same hash and the same curve. -/
+def PlansMatch (callOf : String → String) (a b : AsymPlan) : Prop :=
+  b.helper.stdCall = callOf a.helper.stdCall ∧ callOf a.helper.stdCall ≠ "?" ∧ b.hash = a.hash ∧ b.curve = a.curve
+
+/-- A family of signature schemes indexed by the dispatch result is lawful if what the scheme of a
+sign-side plan signs, the scheme of every MATCHING verify-side plan accepts. -/
+def SigFamilyLawful {SK PK : Type} (F : AsymPlan → SigScheme SK PK) : Prop :=
+  ∀ a b, PlansMatch verifyCallOf a b → ∀ sk d r s,
+    (F a).sign sk d r = .ok s → (F b).verify ((F a).pub sk) d s = .valid
+
+/-- Likewise for public-key encryption. -/
+def PkeFamilyLawful {SK PK : Type} (F : AsymPlan → PkeScheme SK PK) : Prop :=
+  ∀ a b, PlansMatch decCallOf a b → ∀ sk m l r c,
+    (F a).enc ((F a).pub sk) m l r = .ok c → (F b).dec sk c l = .ok m
+
 /-- The verify-side plan is the public counterpart of the sign-side plan. -/
 def planPairOK (a b : AsymPlan) : Bool :=
   (a.helper.rawType == "rsa.PrivateKey" || a.helper.rawType == "ecdsa.PrivateKey" ||
     a.helper.rawType == "ed25519.PrivateKey") &&
   b.helper.rawType == pubTypeOf a.helper.rawType && b.helper.checksCurve == a.helper.checksCurve &&
-  b.curve == a.curve
+  b.curve == a.curve && b.hash == a.hash && b.helper.stdCall == verifyCallOf a.helper.stdCall &&
+  verifyCallOf a.helper.stdCall != "?"
 
 def sigPairOK (alg : String) : Bool :=
   match asymPlan Generated.C03.sw_SignPrivateKey alg, asymPlan Generated.C03.sw_VerifyPublicKey alg with
@@ -66,7 +96,7 @@ theorem rawFits_pub (ty : String) (k : KeyKind)
 theorem asymGuard_pair (a b : AsymPlan) (h : planPairOK a b = true) (k : KeyKind)
     (hg : asymGuard a k = none) : asymGuard b (toPublic k) = none := by
   simp only [planPairOK, Bool.and_eq_true, Bool.or_eq_true, beq_iff_eq] at h
-  obtain ⟨⟨⟨hty, hpub⟩, hcc⟩, hcv⟩ := h
+  obtain ⟨⟨⟨⟨⟨⟨hty, hpub⟩, hcc⟩, hcv⟩, _⟩, _⟩, _⟩ := h
   have h1 : rawFits a.helper.rawType k = true := by
     cases hr : rawFits a.helper.rawType k with
     | true => rfl
@@ -85,5 +115,225 @@ theorem asymGuard_pair (a b : AsymPlan) (h : planPairOK a b = true) (k : KeyKind
   rw [hpub, h3, hcc, hcv, curveBits_toPublic]
   simp only [not_true_eq_false, if_false]
   rw [if_neg h2]
+
+theorem planPairOK_match (a b : AsymPlan) (h : planPairOK a b = true) : PlansMatch verifyCallOf a b := by
+  simp only [planPairOK, Bool.and_eq_true, Bool.or_eq_true, beq_iff_eq, bne_iff_ne] at h
+  obtain ⟨⟨⟨⟨_, hcv⟩, hh⟩, hc⟩, hq⟩ := h
+  exact ⟨hc, hq, hh, hcv⟩
+
+/-! ### `asymDispatch` vs `asymOutcome`, and totality -/
+
+def asymSwitchOf (fn : String) : Switch :=
+  if fn = "EncryptPublicKey" then Generated.C03.sw_EncryptPublicKey
+  else if fn = "DecryptPrivateKey" then Generated.C03.sw_DecryptPrivateKey
+  else if fn = "SignPrivateKey" then Generated.C03.sw_SignPrivateKey
+  else Generated.C03.sw_VerifyPublicKey
+
+def asymKeySeen (fn : String) (k : KeyKind) : KeyKind :=
+  if fn = "EncryptPublicKey" ∨ fn = "VerifyPublicKey" then toPublic k else k
+
+theorem asymDispatch_eq (fn alg : String) (k : KeyKind) :
+    asymDispatch fn alg k =
+      match asymPlan (asymSwitchOf fn) alg with
+      | .err e => .err e
+      | .panic w => .panic w
+      | .ok pl => match asymGuard pl (asymKeySeen fn k) with
+        | some e => .err e
+        | none => .ok pl := rfl
+
+theorem asymOutcome_eq (fn alg : String) (k : KeyKind) :
+    asymOutcome fn alg k =
+      match asymPlan (asymSwitchOf fn) alg with
+      | .err e => .err e
+      | .panic w => .panic w
+      | .ok pl => match asymGuard pl (asymKeySeen fn k) with
+        | some e => .err e
+        | none => .ok () := rfl
+
+/-- `asymOutcome` is `asymDispatch` with the plan forgotten. -/
+theorem asymOutcome_of_dispatch (fn alg : String) (k : KeyKind) :
+    asymOutcome fn alg k = (match asymDispatch fn alg k with
+      | .ok _ => .ok () | .err e => .err e | .panic w => .panic w) := by
+  rw [asymOutcome_eq, asymDispatch_eq]
+  cases asymPlan (asymSwitchOf fn) alg with
+  | ok pl =>
+    simp only
+    cases hg : asymGuard pl (asymKeySeen fn k) <;> simp
+  | err e => rfl
+  | panic w => rfl
+
+theorem asymDispatch_ok {fn alg : String} {k : KeyKind} {pl : AsymPlan}
+    (h : asymDispatch fn alg k = .ok pl) :
+    asymPlan (asymSwitchOf fn) alg = .ok pl ∧ asymGuard pl (asymKeySeen fn k) = none := by
+  rw [asymDispatch_eq] at h
+  cases hp : asymPlan (asymSwitchOf fn) alg with
+  | ok pl' =>
+    rw [hp] at h
+    simp only at h
+    cases hg : asymGuard pl' (asymKeySeen fn k) with
+    | none => rw [hg] at h; injection h with h; subst h; exact ⟨rfl, hg⟩
+    | some e => rw [hg] at h; cases h
+  | err e => rw [hp] at h; cases h
+  | panic w => rw [hp] at h; cases h
+
+def fourSwitches : List Switch :=
+  [Generated.C03.sw_EncryptPublicKey, Generated.C03.sw_DecryptPrivateKey,
+   Generated.C03.sw_SignPrivateKey, Generated.C03.sw_VerifyPublicKey]
+
+theorem asymSwitchOf_mem (fn : String) : asymSwitchOf fn ∈ fourSwitches := by
+  unfold asymSwitchOf fourSwitches
+  split
+  · simp
+  · split
+    · simp
+    · split <;> simp
+
+/-- Every name that occurs in a case list of one of the four switches gets a plan: no lookup panics,
+the helper exists, and the only error its key guard can return is `ErrKeyTypeMismatch`. -/
+theorem asymPlan_listed :
+    ∀ sw ∈ fourSwitches, ∀ c ∈ sw.cases, ∀ a ∈ c.1,
+      (match asymPlan sw a with
+        | .ok pl => pl.helper.guardErr == eKeyTypeMismatch
+        | _ => false) = true := by
+  decide
+
+theorem fourSwitches_dflt : ∀ sw ∈ fourSwitches, sw.dflt = eUnsupportedAlgorithm := by decide
+
+/-- For EVERY string: the dispatch either says `ErrUnsupportedAlgorithm` or yields a plan whose
+guard error is `ErrKeyTypeMismatch` — never a panic (names shorter than the slices of
+`getSHAHash`/`expectedKeySize` included: they are in no case list, so no table is consulted). -/
+theorem asymPlan_total (sw : Switch) (hsw : sw ∈ fourSwitches) (alg : String) :
+    asymPlan sw alg = .err eUnsupportedAlgorithm ∨
+    ∃ pl, asymPlan sw alg = .ok pl ∧ pl.helper.guardErr = eKeyTypeMismatch := by
+  cases hl : lookupSwitch sw alg with
+  | none =>
+    left
+    unfold asymPlan
+    rw [hl, fourSwitches_dflt sw hsw]
+  | some ce =>
+    right
+    -- the name occurs in a case list
+    unfold lookupSwitch at hl
+    rw [Option.map_eq_some_iff] at hl
+    obtain ⟨c, hfind, _⟩ := hl
+    have hc : c ∈ sw.cases := List.mem_of_find?_eq_some hfind
+    have ha : alg ∈ c.1 := by
+      have := List.find?_some hfind
+      simpa using this
+    have := asymPlan_listed sw hsw c hc alg ha
+    cases hp : asymPlan sw alg with
+    | ok pl => rw [hp] at this; exact ⟨pl, rfl, by simpa using this⟩
+    | err e => rw [hp] at this; cases this
+    | panic w => rw [hp] at this; cases this
+
+theorem asymGuard_cases (pl : AsymPlan) (k : KeyKind) :
+    asymGuard pl k = none ∨ asymGuard pl k = some pl.helper.guardErr := by
+  unfold asymGuard
+  split
+  · right; rfl
+  · split
+    · right; rfl
+    · left; rfl
+
+/-! ### encryption-side and decryption-side dispatch agree -/
+
+def encPairOK (alg : String) : Bool :=
+  match asymPlan Generated.C03.sw_EncryptPublicKey alg, asymPlan Generated.C03.sw_DecryptPrivateKey alg with
+  | .ok a, .ok b => b.helper.stdCall == decCallOf a.helper.stdCall && decCallOf a.helper.stdCall != "?" &&
+      b.hash == a.hash && b.curve == a.curve
+  | _, _ => false
+
+theorem encPairOK_all : ∀ alg ∈ Generated.C03.supportedAsymmetric, encPairOK alg = true := by decide
+
+theorem lookupSwitch_some_mem {sw : Switch} {alg : String} {ce : String × String}
+    (h : lookupSwitch sw alg = some ce) : ∃ c ∈ sw.cases, alg ∈ c.1 := by
+  unfold lookupSwitch at h
+  rw [Option.map_eq_some_iff] at h
+  obtain ⟨c, hfind, _⟩ := h
+  exact ⟨c, List.mem_of_find?_eq_some hfind, by simpa using List.find?_some hfind⟩
+
+theorem asymPlan_ok_mem {sw : Switch} {alg : String} {pl : AsymPlan} (h : asymPlan sw alg = .ok pl) :
+    ∃ c ∈ sw.cases, alg ∈ c.1 := by
+  cases hl : lookupSwitch sw alg with
+  | none => unfold asymPlan at h; rw [hl] at h; cases h
+  | some ce => exact lookupSwitch_some_mem hl
+
+/-- Sign-side and verify-side dispatch agree for EVERY name and key kind: if `SignPrivateKey` proceeds
+with plan `a`, `VerifyPublicKey` (on the same key or its public half) proceeds with a plan `b` that
+denotes the same primitive — counterpart stdlib call, same hash, same curve. -/
+theorem sig_dispatch_agrees_lemma (alg : String) (kind : KeyKind) (a : AsymPlan)
+    (h : asymDispatch "SignPrivateKey" alg kind = .ok a) :
+    ∃ b, asymDispatch "VerifyPublicKey" alg kind = .ok b ∧ PlansMatch verifyCallOf a b := by
+  obtain ⟨hpa, hga⟩ := asymDispatch_ok h
+  have hswS : asymSwitchOf "SignPrivateKey" = Generated.C03.sw_SignPrivateKey := by decide
+  have hswV : asymSwitchOf "VerifyPublicKey" = Generated.C03.sw_VerifyPublicKey := by decide
+  rw [hswS] at hpa
+  obtain ⟨c, hc, hac⟩ := asymPlan_ok_mem hpa
+  have hsub : ∀ c ∈ Generated.C03.sw_SignPrivateKey.cases, ∀ x ∈ c.1, x ∈ Generated.C03.supportedSignature := by
+    decide
+  have hp := sigPairOK_all alg (hsub c hc alg hac)
+  unfold sigPairOK at hp
+  rw [hpa] at hp
+  cases hV : asymPlan Generated.C03.sw_VerifyPublicKey alg with
+  | ok b =>
+    rw [hV] at hp
+    simp only at hp
+    have hkS : asymKeySeen "SignPrivateKey" kind = kind := by simp [asymKeySeen]
+    have hkV : asymKeySeen "VerifyPublicKey" kind = toPublic kind := by simp [asymKeySeen]
+    rw [hkS] at hga
+    have hgb := asymGuard_pair a b hp kind hga
+    refine ⟨b, ?_, planPairOK_match a b hp⟩
+    rw [asymDispatch_eq, hswV, hV, hkV]
+    simp only [hgb]
+  | err e => rw [hV] at hp; cases hp
+  | panic w => rw [hV] at hp; cases hp
+
+/-- Encryption-side and decryption-side dispatch agree (whatever the two key kinds). -/
+theorem pke_dispatch_agrees_lemma (alg : String) (kE kD : KeyKind) (a b : AsymPlan)
+    (ha : asymDispatch "EncryptPublicKey" alg kE = .ok a)
+    (hb : asymDispatch "DecryptPrivateKey" alg kD = .ok b) : PlansMatch decCallOf a b := by
+  obtain ⟨hpa, _⟩ := asymDispatch_ok ha
+  obtain ⟨hpb, _⟩ := asymDispatch_ok hb
+  have hswE : asymSwitchOf "EncryptPublicKey" = Generated.C03.sw_EncryptPublicKey := by decide
+  have hswD : asymSwitchOf "DecryptPrivateKey" = Generated.C03.sw_DecryptPrivateKey := by decide
+  rw [hswE] at hpa
+  rw [hswD] at hpb
+  obtain ⟨c, hc, hac⟩ := asymPlan_ok_mem hpa
+  have hsub : ∀ c ∈ Generated.C03.sw_EncryptPublicKey.cases, ∀ x ∈ c.1, x ∈ Generated.C03.supportedAsymmetric := by
+    decide
+  have hp := encPairOK_all alg (hsub c hc alg hac)
+  unfold encPairOK at hp
+  rw [hpa, hpb] at hp
+  simp only [Bool.and_eq_true, beq_iff_eq, bne_iff_ne] at hp
+  obtain ⟨⟨⟨h1, h2⟩, h3⟩, h4⟩ := hp
+  exact ⟨h1, h2, h3, h4⟩
+
+/-! ### which key kinds each signature name takes (specification side) -/
+
+def kindBase : KeyKind → String
+  | .oct => "oct"
+  | .rsaPriv | .rsaPub => "rsa"
+  | .ecPriv b | .ecPub b => "ec" ++ toString b
+  | .ed25519Priv | .ed25519Pub => "ed25519"
+  | .x25519Priv | .x25519Pub => "x25519"
+
+def kindIsPriv : KeyKind → Bool
+  | .rsaPriv | .ecPriv _ | .ed25519Priv | .x25519Priv => true
+  | _ => false
+
+/-- What the JOSE name says about the key: RSA for RS*/PS*, the curve for ES*, Ed25519 for EdDSA. -/
+def wantBase (alg : String) : String :=
+  if alg = "ES256" then "ec256" else if alg = "ES384" then "ec384" else if alg = "ES512" then "ec521"
+  else if alg = "EdDSA" then "ed25519" else "rsa"
+
+/-! ### the AEAD input tuple -/
+
+theorem aead_input_inj (ct tag ct' tag' nonce nonce' ad ad' : Bytes) (ht : tag'.length = tag.length)
+    (h : (nonce', ct' ++ tag', ad') = (nonce, ct ++ tag, ad)) :
+    ct' = ct ∧ tag' = tag ∧ nonce' = nonce ∧ ad' = ad := by
+  injection h with h1 h2
+  injection h2 with h2 h3
+  obtain ⟨hc, htg⟩ := List.append_inj' h2 ht
+  exact ⟨hc, htg, h1, h3⟩
 
 end Kit.CryptoGlue
